@@ -172,6 +172,7 @@ class FunctionSpec:
         self.harness = None
         self.wrapbody = None
         self.bounded = None
+        self.restricted = None   # @restricted <text>: the proof holds on a stated sub-domain of the inputs only (reported with the bounded stand-ins)
         self.siblings = []
         self.props = set()
         self.kind = 'function'
@@ -181,6 +182,9 @@ class FunctionSpec:
         self.witness = []
         self.selfharness = None
         for k, v in parse_directives(path):
+            if k == 'restricted':
+                self.restricted = v.strip()
+                continue
             if k in ('function', 'file', 'sig', 'inclass', 'unit', 'c', 'harness', 'wrapbody', 'bounded'):
                 setattr(self, k, v.strip())
             elif k == 'nth':
